@@ -13,6 +13,7 @@ anisotropy, the hexagonal axis is a coordinate axis.
 from __future__ import annotations
 
 import itertools as it
+from fractions import Fraction
 import sys as _sys
 
 import numpy as np
@@ -37,7 +38,17 @@ def tasks(tier):
     pairs = [(perms[0], perms[0]), (perms[3], perms[1]), (perms[5], perms[2])] if tier == "quick" else [(a, b) for a in perms for b in perms]
     t += [("t_orthorhombic", {"perm_d": list(a), "perm_v": list(b), "signs": [1, -1, 1]}) for a, b in pairs]
     t += [("t_orthorhombic", {"perm_d": [0, 1, 2], "perm_v": [0, 1, 2], "signs": [1, 1, 1], "series": 2})]
+    # rotated frames: exact rational rotations (rational unit quaternions), eigenvector order/sign as LAPACK may return
+    rot = [(0, perms[0], perms[0]), (3, perms[1], perms[1]), (4, perms[2], perms[4])] if tier == "quick" else [
+        (qi, a, b) for qi in range(len(RATIONAL_QUATS)) for a, b in ((perms[0], perms[0]), (perms[1], perms[1]), (perms[2], perms[4]), (perms[5], perms[3]))]
+    t += [("t_orthorhombic_rotated", {"qi": qi, "perm0": list(a), "perm1": list(b), "signs": [1, -1, -1]}) for qi, a, b in rot]
     return t
+
+
+# rational unit quaternions (w, x, y, z): rotations about x, y, z and general axes; all entries of R(q) are rationals
+RATIONAL_QUATS = [(Fraction(3, 5), Fraction(4, 5), 0, 0), (Fraction(3, 5), 0, Fraction(4, 5), 0), (Fraction(12, 13), 0, 0, Fraction(5, 13)),
+                  (Fraction(1, 5), Fraction(2, 5), Fraction(2, 5), Fraction(4, 5)), (Fraction(2, 7), Fraction(3, 7), Fraction(6, 7), 0),
+                  (Fraction(1, 9), Fraction(4, 9), 0, Fraction(8, 9)), (Fraction(2, 11), Fraction(-6, 11), Fraction(9, 11), 0)]
 
 
 class CutLa:
@@ -256,6 +267,122 @@ def t_orthorhombic(sess, perm_d, perm_v, signs, series=1):
     if not reached:
         sess.reach.append(type("Q", (), {"name": f"{tag}: reach", "verdict": "unknown", "secs": 0.0})())
     sample(sess, obligation="orthorhombic decomposition", config=tag, paths=len(paths))
+
+
+def _exact_smallest_angle(vector, axis, plane=None):
+    """diagnostics.smallest_angle by its documented contract on exact unit vectors: 0 for parallel / antiparallel,
+    90 for orthogonal, strictly between otherwise (degrees; only compared, never used as a number)."""
+    import math
+
+    d = sum((R(a) * R(b) for a, b in zip(np.asarray(vector, dtype=object).flat, np.asarray(axis, dtype=object).flat)), R(0))
+    if not d.concrete or plane is not None:
+        raise sym.Unsupported("smallest_angle stand-in needs concrete unit vectors")
+    v = abs(Fraction(d.v))
+    if v >= 1:
+        return R(0)
+    if v == 0:
+        return R(90)
+    return R(Fraction(math.degrees(math.acos(float(v)))).limit_denominator(10**9))
+
+
+def t_orthorhombic_rotated(sess, qi, perm0, perm1, signs):
+    """C0 orthorhombic in the working frame (9 free parameters) and C1 = C0 expressed in the frame rotated by an
+    exact rational rotation Q, decomposed by ONE call of the real function; LAPACK's freedom (order and sign of the
+    principal axes: one ascending-eigenvalue order for the dilatational and one for the deviatoric contraction -- the
+    same in both frames because the eigenvalues are frame invariant -- and free signs in every call) is a parameter
+    of the task.  Claims: every reported number of
+    C1 equals that of C0, the monoclinic and triclinic parts of C1 vanish, the squared class percentages add up to
+    the squared anisotropy, and the hexagonal axis of C1 is +-Q applied to the axis found for C0."""
+    mods = pydrex_modules()
+    diag, tensors = mods["diagnostics"], mods["tensors"]
+    sess.encode(diag.elasticity_components, tensors.rotate, tensors.voigt_to_elastic_tensor, tensors.elastic_tensor_to_voigt)
+    q = RATIONAL_QUATS[qi]
+    Q = np.array([[R(x).v for x in row] for row in np.asarray(quat.rotmat(tuple(R(x) for x in q)), dtype=object)], dtype=object)
+    sess.bounds["orthorhombic rotated"] = f"9 free orthorhombic parameters; frame rotation = R(q), q = {tuple(str(x) for x in q)} (one of {len(RATIONAL_QUATS)} exact rational rotations); eigenvector order {perm0} (dilatational) / {perm1} (deviatoric), signs {signs} and their reversed negation in the rotated frame"
+    sess.assume_env("la.eigh of a contraction of an orthorhombic tensor with distinct principal values returns its principal axes (the columns of Q) in ascending-eigenvalue order (any order, but the same in both frames) with arbitrary signs")
+    sess.assume_env("diagnostics.smallest_angle by its documented contract on unit vectors (0 parallel, 90 orthogonal); its arccos/rad2deg arithmetic is not re-executed here")
+
+    def vmat(perm, sg, rot):
+        V = np.empty((3, 3), dtype=object)
+        for col, ax in enumerate(perm):
+            for i in range(3):
+                V[i, col] = R((Q[i, ax] if rot else Fraction(int(i == ax))) * sg[col])
+        return sarr(V)
+
+    class RotLa:
+        n = 0
+
+        def norm(self, x, axis=None, **kw):
+            from ..sarr import _f_norm
+
+            return _f_norm(x, axis=axis)
+
+        def eigh(self, m, **kw):
+            # ascending-eigenvalue order is fixed by the (frame-invariant) eigenvalues: the same order in both frames,
+            # one order for the dilatational and one for the deviatoric contraction; the signs are free in every call
+            self.n += 1
+            second = self.n > 2
+            first_of_pair = self.n % 2 == 1
+            perm = perm0 if first_of_pair else perm1
+            sg = signs if first_of_pair else [1, 1, 1]
+            if second:
+                sg = [-x for x in sg[::-1]]
+            return sarr(np.zeros(3)), vmat(perm, sg, second)
+
+    la = RotLa()
+
+    def fn():
+        la.n = 0
+        sym.ctx().notes["canon_sqrt"] = True
+        C = sarr(np.zeros((6, 6)))
+        names = {(0, 0): "c11", (1, 1): "c22", (2, 2): "c33", (0, 1): "c12", (0, 2): "c13", (1, 2): "c23", (3, 3): "c44", (4, 4): "c55", (5, 5): "c66"}
+        for (i, j), n in names.items():
+            C[i, j] = real(n)
+            C[j, i] = C[i, j]
+        sym.ctx().assume((C[0, 0] > 0).z3())
+        T0 = tensors.voigt_to_elastic_tensor(C)
+        Qs = sarr(np.array([[R(x) for x in row] for row in Q], dtype=object))
+        C1 = tensors.elastic_tensor_to_voigt(tensors.rotate(T0, Qs))
+        out = diag.elasticity_components(sarr(np.array([C.view(np.ndarray), np.asarray(C1, dtype=object)], dtype=object)))
+        return C, C1, out
+
+    with np_installed(diag, tensors), patched((diag, "la", la), (diag, "smallest_angle", _exact_smallest_angle)):
+        paths, info = sym.explore(fn, catch=(Exception,), max_paths=64)
+    tag = f"orthorhombic rotated[q{qi}, orders {perm0}/{perm1}]"
+    sess.paths[tag] = {"paths": len(paths)}
+    if info["truncated"]:
+        sess.truncated = True
+    reached = False
+    keys = ("bulk_modulus", "shear_modulus", "percent_anisotropy", "percent_hexagonal", "percent_tetragonal", "percent_orthorhombic", "percent_monoclinic", "percent_triclinic")
+    for k, p in enumerate(paths):
+        pt = f"{tag} path {k}"
+        if p.exc is not None:
+            sess.prove(f"{pt}: raises {type(p.exc).__name__}: {str(p.exc)[:80]}", p.pc, z3.BoolVal(False))
+            continue
+        C, C1, out = p.value
+        if not reached:
+            reached = sess.satisfiable(f"{pt}: reach", p.pc).verdict == "sat"
+        if out["percent_monoclinic"][0] is None or out["percent_monoclinic"][1] is None:
+            sess.prove(f"{pt}: some axis permutation is accepted in both frames", p.pc, z3.BoolVal(False), tags={"optional": True}, timeout_ms=10000)
+            continue
+        rules = poly.Rules()
+        for _, (arg, res) in sym_sqrt_apps(p):
+            rules.square(R(res), R(arg))
+        sess.prove(f"{pt}: every reported modulus and percentage is the same in the rotated frame", p.pc,
+                   z3.And(*[eq(out[key][0], out[key][1]) for key in keys]))
+        sess.prove(f"{pt}: rotated frame: monoclinic and triclinic parts vanish", p.pc, z3.And(eq(out["percent_monoclinic"][1], 0), eq(out["percent_triclinic"][1], 0)))
+        sq = lambda v: R(v) * R(v)  # noqa: E731
+        parts = sum((sq(out[key][1]) for key in keys[3:]), R(0))
+        sess.prove_nf(f"{pt}: rotated frame: squared class percentages add up to the squared percent anisotropy", p.pc, rules, [parts], [sq(out["percent_anisotropy"][1])])
+        a0 = [R(v) for v in out["hexagonal_axis"][0]]
+        a1 = [R(v) for v in out["hexagonal_axis"][1]]
+        conc = all(a.concrete for a in a0 + a1)
+        img = [sum((Q[i, j] * Fraction(a0[j].v) for j in range(3)), Fraction(0)) for i in range(3)] if conc else None
+        good = conc and (all(Fraction(a1[i].v) == img[i] for i in range(3)) or all(Fraction(a1[i].v) == -img[i] for i in range(3)))
+        sess.prove(f"{pt}: hexagonal axis of the rotated tensor is +-Q applied to the axis found in the unrotated frame (unit vector)", p.pc, z3.BoolVal(bool(good)))
+    if not reached:
+        sess.reach.append(type("Q", (), {"name": f"{tag}: reach", "verdict": "unknown", "secs": 0.0})())
+    sample(sess, obligation="orthorhombic decomposition in a rotated frame", config=tag, paths=len(paths))
 
 
 def default_cex(name):
